@@ -86,7 +86,20 @@ pub fn run_c15(ctx: &Ctx) -> Report {
 		.filter(|t| fr.valid(Kind::Ri, t))
 		.collect();
 		total.count(&format!("{}_written_length_values", f.name()), dom3.len() as u64);
-		for dom in [&dom, &dom2, &dom3] {
+		// fourth domain: ordinary segments that merely start or end with dots, next to real dot segments
+		let dom4: Vec<Vec<u8>> = domains::references(
+			&o(&["s"]),
+			&o(&["h"]),
+			&domains::paths(&["..", "..a", "...", "a..", ".", "c"].iter().map(|s| domains::b(s)).collect::<Vec<_>>(), 3).into_iter().filter(|p| p.starts_with(b"/")).collect::<Vec<_>>(),
+			&[None],
+			&[None],
+		)
+		.into_iter()
+		.map(|(t, _)| t)
+		.filter(|t| fr.valid(Kind::Ri, t))
+		.collect();
+		total.count(&format!("{}_dotted_segment_values", f.name()), dom4.len() as u64);
+		for dom in [&dom, &dom2, &dom3, &dom4] {
 		let shards = 128usize;
 		let r = run_shards(ctx, shards, |si| {
 			let mut r = Report::new();
@@ -143,7 +156,12 @@ pub fn run_c16(ctx: &Ctx) -> Report {
 		let fr = FamRefs::new(refs, f);
 		let dpath = refs.dfa(f, Kind::Path);
 		// "x%62" / "X%62": differ only in the case of a letter outside the %XX triplet
-		let segs: Vec<Vec<u8>> = ["", ".", "..", "a", "b", "a:b", "%61", "%FF", "x%62", "X%62", "xb"].iter().map(|s| domains::b(s)).collect();
+		// (IRI: a character written raw and written as escapes - the same segment)
+		let mut segs: Vec<Vec<u8>> = ["", ".", "..", "a", "b", "a:b", "%61", "%FF", "x%62", "X%62", "xb"].iter().map(|s| domains::b(s)).collect();
+		if f == Family::Iri && domains::wide() == 0 {
+			segs.push(domains::b("é"));
+			segs.push(domains::b("%C3%A9"));
+		}
 		let paths: Vec<Vec<u8>> = domains::paths(&segs, n).into_iter().filter(|p| ref_valid(&dpath, f, Kind::Path, p)).collect();
 		// quick: all pairs of PATH(3) would be 9e6; keep the prefix side at PATH(2)
 		let mut prefixes: Vec<Vec<u8>> = domains::paths(&segs, n - 1).into_iter().filter(|p| ref_valid(&dpath, f, Kind::Path, p)).collect();
